@@ -1,6 +1,9 @@
 (* Driver of the extracted model for C13: reads the case lines of harness/cmd/c13 on stdin,
    prints one observation line per case in the format of that command.
-   Case:  <searchers>;tok tok tok
+   Case:  [@<provenance>@]<searchers>;tok tok tok
+   <provenance> says in which way the Go side obtains the Dawg object holding the words (New,
+   Builder, GobDecode into a fresh or a used value, ...); it is skipped here: whatever the way,
+   the expected observation is the model's search on the Dawg of the word list.
    <searchers> = comma separated list (possibly empty) of  P:<hex pattern>:<hex blank byte>
    or  A:<hex anagram>:<hex blank byte>  ("-" = the empty pattern/anagram); each token is a
    word in hex ("-" = the empty word), strictly increasing.
@@ -63,6 +66,11 @@ let () =
       let line = input_line stdin in
       let i = String.rindex line ';' in
       let header = String.sub line 0 i in
+      let header =
+        if String.length header > 0 && header.[0] = '@' then
+          let j = String.index_from header 1 '@' in
+          String.sub header (j + 1) (String.length header - j - 1)
+        else header in
       let toks = split_nonempty ' ' (String.sub line (i + 1) (String.length line - i - 1)) in
       let specs = List.map spec_of_string (split_nonempty ',' header) in
       let words = List.map word_of_hex toks in
